@@ -863,7 +863,7 @@ pub fn run(r: &mut Report, replay: Option<&str>) {
     if let Some(path) = replay {
         let _ = path;
     }
-    let n = if r.thorough() { 80000 } else { 8000 } / nshards;
+    let n = if r.thorough() { 120000 } else { 24000 } / nshards;
     let mut rng = Rng::new(r.seed.wrapping_add(shard.wrapping_mul(7919)));
     let only: Option<u64> = std::env::var("VERIF_ONLY").ok().and_then(|s| s.parse().ok());
     if shard == 0 && only.is_none() {
